@@ -760,3 +760,270 @@ _run_c03_17 = run
 def run(res, facts, tier):
     _run_c03_17(res, facts, tier)
     r8_division(res, facts)
+
+
+# ----------------------------------------------------------------------------------------------- R9: dereference on a path where the pointer is known null
+def _ptr_ref(e):
+    e = strip_casts(e)
+    if isinstance(e, dict) and e.get('k') == 'Ref' and e.get('d') in ('local', 'param') and (e.get('ty') or '').rstrip().endswith('*') and 'id' in e:
+        return e
+    return None
+
+
+def _const_of(e):
+    e = strip_casts(e)
+    if isinstance(e, dict) and 'cv' in e and e.get('k') in ('Int', 'Bool', 'Ref', 'Char'):
+        return e['cv']
+    if isinstance(e, dict) and e.get('k') == 'Nullptr':
+        return 0
+    return None
+
+
+def _cond_key(n):
+    """canonical (key, truth of the key when the cond node is true)"""
+    e, br = common.norm_atom(n.ast, True)
+    if not isinstance(e, dict):
+        return None
+    if e.get('k') == 'Bin' and e['op'] in ('==', '!='):
+        l, r = strip_casts(e['lhs']), strip_casts(e['rhs'])
+        for a, b in ((l, r), (r, l)):
+            if isinstance(a, dict) and a.get('k') == 'Ref' and a.get('d') in ('local', 'param') and 'id' in a:
+                c = _const_of(b)
+                if c is not None:
+                    return ('eq', a['id'], c), ((e['op'] == '==') == br)
+    if e.get('k') == 'Ref' and e.get('d') in ('local', 'param') and 'id' in e:
+        return ('eq', e['id'], 0), (not br)
+    return ('txt', pp(e)), br
+
+
+def _effects(n):
+    killed = set(); vals = {}
+    if n.ast is None:
+        return killed, vals
+    for x in walk(n.ast):
+        k = x.get('k')
+        if k == 'Decl':
+            for v in x.get('vars', []):
+                killed.add(v['id'])
+                if v.get('init') is not None:
+                    c = _const_of(v['init'])
+                    if c is not None:
+                        vals[v['id']] = c
+        elif k == 'Bin' and (x['op'] == '=' or (x['op'].endswith('=') and x['op'] not in ('==', '!=', '<=', '>='))):
+            t = strip_casts(x['lhs'])
+            if isinstance(t, dict) and t.get('k') == 'Ref' and 'id' in t:
+                killed.add(t['id'])
+                if x['op'] == '=':
+                    c = _const_of(x['rhs'])
+                    if c is not None:
+                        vals[t['id']] = c
+        elif k == 'Un' and x['op'] in ('++', '--'):
+            t = strip_casts(x['e'])
+            if isinstance(t, dict) and t.get('k') == 'Ref' and 'id' in t:
+                killed.add(t['id'])
+        elif k in ('Call', 'MCall', 'Ctor'):
+            for a0 in x.get('args', []):
+                t = strip_casts(a0)
+                if isinstance(t, dict) and t.get('k') == 'Un' and t.get('op') == '&':
+                    t = strip_casts(t['e'])
+                if isinstance(t, dict) and t.get('k') == 'Ref' and t.get('d') in ('local', 'param') and 'id' in t and not (t.get('ty') or '').startswith('const') and '*' not in (t.get('ty') or ''):
+                    killed.add(t['id'])
+    return killed, vals
+
+
+class _DerefSummary:
+    """does a function dereference its i-th parameter without ever testing it against null (directly or by handing it on)"""
+
+    def __init__(self, facts):
+        self.facts = facts
+        self.memo = {}
+
+    def derefs(self, fn, i, depth=0):
+        key = (fn, i)
+        if key in self.memo:
+            return self.memo[key]
+        self.memo[key] = False
+        r = False
+        for a in (self.facts.asts(fn, must=False) or self.facts.asts(short(fn), must=False))[:2]:
+            if i >= len(a['params']):
+                continue
+            pid = a['params'][i]['id']
+            if not (a['params'][i].get('ty') or '').rstrip().endswith('*'):
+                continue
+            tested = False
+            direct = False
+            passes = []
+            for x in walk(a['body']):
+                k = x.get('k')
+                if k == 'Bin' and x['op'] in ('==', '!='):
+                    for s in (x['lhs'], x['rhs']):
+                        v = _ptr_ref(s)
+                        if v is not None and v['id'] == pid:
+                            tested = True
+                elif k in ('If', 'While', 'For', 'Cond'):
+                    c = x.get('cond') if k != 'Cond' else x.get('c')
+                    v = _ptr_ref(c) if c is not None else None
+                    if v is not None and v['id'] == pid:
+                        tested = True
+                if k == 'Un' and x.get('op') == '*':
+                    v = _ptr_ref(x['e'])
+                    if v is not None and v['id'] == pid:
+                        direct = True
+                elif k == 'Member' and x.get('arrow'):
+                    v = _ptr_ref(x.get('obj'))
+                    if v is not None and v['id'] == pid:
+                        direct = True
+                elif k == 'MCall':
+                    o = strip_casts(x.get('obj'))
+                    v = _ptr_ref(o) if o is not None else None
+                    if v is not None and v['id'] == pid:
+                        direct = True
+                if k in ('Call', 'MCall') and x.get('fn'):
+                    for j, a0 in enumerate(x.get('args', [])):
+                        v = _ptr_ref(a0)
+                        if v is not None and v['id'] == pid:
+                            passes.append((x['fn'], j))
+            if tested:
+                continue
+            if direct or (depth < 3 and any(self.derefs(f2, j, depth + 1) for f2, j in passes)):
+                r = True
+        self.memo[key] = r
+        return r
+
+
+def _derefs_of(n, vid, summ):
+    out = []
+    if n.ast is None:
+        return out
+    for x in walk(n.ast):
+        k = x.get('k')
+        if k == 'MCall' and x.get('obj') is not None:
+            o = strip_casts(x['obj'])
+            if isinstance(o, dict) and o.get('k') == 'Un' and o.get('op') == '*':
+                o = strip_casts(o['e'])
+            v = _ptr_ref(o)
+            if v is not None and v['id'] == vid:
+                out.append(x)
+        if k in ('MCall', 'Call') and x.get('fn'):
+            for j, a0 in enumerate(x.get('args', [])):
+                v = _ptr_ref(a0)
+                if v is not None and v['id'] == vid and summ.derefs(x['fn'], j):
+                    out.append(x)
+        elif k == 'Member' and x.get('arrow'):
+            v = _ptr_ref(x.get('obj'))
+            if v is not None and v['id'] == vid:
+                out.append(x)
+        elif k == 'Un' and x.get('op') == '*':
+            v = _ptr_ref(x['e'])
+            if v is not None and v['id'] == vid:
+                out.append(x)
+    return out
+
+
+def _null_deref_paths(a, summ):
+    """[(variable name, deref ast)]: inside ONE condition (the chain of cond nodes short-circuit evaluation expands it to), a
+    dereference evaluated on the branch on which an earlier operand found the pointer null.  Nothing can be assigned between the
+    test and the use except by the condition itself, so every such path is feasible."""
+    cfg = CFG(a)
+    out = []
+    names = {}
+    for x in walk(a['body']):
+        if x.get('k') == 'Ref' and 'id' in x:
+            names[x['id']] = x.get('n')
+    for t in cfg.nodes:
+        if t.kind != 'cond' or t.ast is None:
+            continue
+        ck = _cond_key(t)
+        if not ck or ck[0][0] != 'eq' or ck[0][2] != 0:
+            continue
+        vid = ck[0][1]
+        e, _ = common.norm_atom(t.ast, True)
+        probe = strip_casts(e if e.get('k') == 'Ref' else (e['lhs'] if _ptr_ref(e.get('lhs')) is not None else e.get('rhs'))) if isinstance(e, dict) else None
+        if _ptr_ref(probe) is None:
+            continue
+        key, tw = ck
+        null_succ = t.cond_true if tw else t.cond_false        # the branch on which (v == 0) holds
+        if null_succ is None:
+            continue
+        seen = set()
+        work = [(null_succ, frozenset({(key, True)}))]
+        while work:
+            n, fs = work.pop()
+            if (n.id, fs) in seen or n.kind != 'cond' or n.ast is None:
+                continue
+            seen.add((n.id, fs))
+            if vid in _effects(n)[0]:
+                continue
+            for x in _derefs_of(n, vid, summ):
+                out.append((names.get(vid, '?'), x))
+            fd = dict(fs)
+            ck2 = _cond_key(n)
+            if ck2 is None:
+                for s in n.succ:
+                    work.append((s, fs))
+                continue
+            k2, tw2 = ck2
+            known = fd.get(k2)
+            for succ, branch in ((n.cond_true, True), (n.cond_false, False)):
+                if succ is None:
+                    continue
+                val = tw2 if branch else (not tw2)
+                if known is not None and known != val:
+                    continue
+                nf = dict(fd); nf[k2] = val
+                work.append((succ, frozenset(nf.items())))
+    uniq = {}
+    for nm, x in out:
+        uniq[(nm, x.get('l'), pp(x)[:60])] = (nm, x)
+    return list(uniq.values())
+
+
+def r9_null_paths(res, facts):
+    r = res.rule('C03-R9', 'inside one condition, no operand dereferences a pointer (or hands it to a function that dereferences it untested) on the branch on which an earlier '
+                 'operand of the same condition found it null — the "a != 0 && b || c(a)" grouping mistake; short-circuit evaluation is expanded, so every reported path is feasible', floor=300)
+    summ = _DerefSummary(facts)
+    fired = set(); fx = set()
+    n_fn = 0
+    for k in facts.astidx:
+        a = facts.ast(k)
+        if a is None or not (facts.lib_path(a['file']) or common.is_fixture(a)):
+            continue
+        if not any(x.get('k') == 'Ref' and (x.get('ty') or '').rstrip().endswith('*') and x.get('d') in ('local', 'param') for x in walk(a['body'])):
+            continue
+        try:
+            hits = _null_deref_paths(a, summ)
+        except RecursionError:
+            continue
+        fname = short(facts.name[k])
+        if common.is_fixture(a):
+            fx.add(fname)
+            if hits:
+                fired.add(fname)
+            continue
+        n_fn += 1
+        if not hits:
+            r.ok(fname)
+        for nm, x in hits:
+            r.violation('%s: %s' % (strip_targs_local(fname), nm), '%s is used as a non-null pointer in %s on a path on which it has just been found to be null' % (nm, pp(x)[:90]), common.file_line(a, x))
+    fixture_summary(r, 'R9', fired, fx)
+    return r
+
+
+def strip_targs_local(n):
+    out = ''; d = 0
+    for ch in n:
+        if ch == '<':
+            d += 1
+        elif ch == '>':
+            d -= 1
+        elif d == 0:
+            out += ch
+    return out
+
+
+_run_c03_18 = run
+
+
+def run(res, facts, tier):
+    _run_c03_18(res, facts, tier)
+    r9_null_paths(res, facts)
